@@ -1129,7 +1129,7 @@ class CaseRunner:
                 rep = (fctx, rec)
                 break
             err = "witness does not reproduce (err %.3g, scale %.3g)" % (rec["err"], rec["scale"])
-        if rep is None and viol.get("kind") != "hinted":
+        if rep is None and viol.get("kind") != "hinted" and ob.kind == "zero" and getattr(self, "_dctx", None) and self._dctx[2] is ob:
             sv = self.sampled_violation()
             if sv is not None:
                 return self.report_violation(ctx, ob, pi, sv, seconds)
